@@ -92,13 +92,14 @@ class ExecCtx:
         self.task = task
         self.stack = []
         self.hard = float('inf')
+        self.outer_text = None
 
 
 def _ctx():
     return _CTX.get(threading.get_ident())
 
 
-def _dispatch(kind, tag, pos, v):
+def _dispatch(kind, tag, pos, v, text=None):
     c = _ctx()
     if c is None or not c.stack:
         # a call made outside any scripted operation (never happens in engines)
@@ -127,7 +128,11 @@ def _dispatch(kind, tag, pos, v):
                 sub = act['nest']
                 if fr.kind == 'compile':
                     env.count('construction_calls_back:nested_' + sub['op'])
-                out = run_op(env, c, sub, fr.path + ('%s@%s' % (tag, pos),))
+                saved_outer, c.outer_text = c.outer_text, text      # what the callback was handed as `_text`
+                try:
+                    out = run_op(env, c, sub, fr.path + ('%s@%s' % (tag, pos),))
+                finally:
+                    c.outer_text = saved_outer
                 fr.nested.append(out)
         if act == 'false' and kind == 'p':
             return False
@@ -142,15 +147,15 @@ def _dispatch(kind, tag, pos, v):
 
 
 def hook(tag, text, pos):
-    return _dispatch('h', tag, pos, None)
+    return _dispatch('h', tag, pos, None, text)
 
 
 def hookv(tag, text, pos, v):
-    return _dispatch('v', tag, pos, v)
+    return _dispatch('v', tag, pos, v, text)
 
 
 def hookp(tag, text, pos, v):
-    return _dispatch('p', tag, pos, v)
+    return _dispatch('p', tag, pos, v, text)
 
 
 def envprobe():
@@ -248,6 +253,7 @@ class Env:
         self.last_mod = {}               # task id -> module of its last parse (for postprocess)
         self.last_text = {}              # task id -> text object of its last parse (when the next call re-uses it)
         self.shared_texts = {}           # value -> the one text object all clients pass for it
+        self.instr = False               # instruction-level pre-emption points enabled in this run
 
     def count(self, k, n=1):
         self.counters[k] = self.counters.get(k, 0) + n
@@ -311,14 +317,20 @@ def fresh_text(text):
     return (text + ' ')[:-1] if text else ''.join([])
 
 
-def _text_object(env, task, op):
+def _text_object(env, task, op, ctx=None):
     """Usually a new object per call.  'prev': the very object this client passed to its previous call
     (same value); 'shared': one object per value for all clients of the run (a constant of the
-    application) -- a cache keyed by the identity of the text then sees hits."""
+    application) -- a cache keyed by the identity of the text then sees hits; 'outer': a nested call
+    is handed the `_text` that its callback received from the enclosing call (`Sub.parse(_text, _pos)`)."""
     mode = op.get('textobj')
     tid = task.i if task is not None else None
     text = None
-    if mode == 'prev':
+    if mode == 'outer':
+        ot = ctx.outer_text if ctx is not None else None
+        if ot is not None and _same_value(ot, op['text']):
+            env.count('nested_call_on_the_text_object_of_the_enclosing_call')
+            return ot
+    elif mode == 'prev':
         prev = env.last_text.get(tid)
         if prev is not None and _same_value(prev, op['text']):
             text = prev
@@ -398,7 +410,7 @@ def run_op(env, ctx, op, path=()):
             except Exception as e:
                 out, raw = {'err': 'entry:' + type(e).__name__}, None
             else:
-                text = _text_object(env, task, op)
+                text = _text_object(env, task, op, ctx)
                 out, raw = _outcome_of_call(fn, text, op.get('pos', 0), op.get('full', True))
                 del text
         except mon.StepBudget:
@@ -501,6 +513,10 @@ def _run_compile(env, ctx, op, path):
     if m is not None and env.sim is not None:
         for c in generated_codes(m):
             env.sim.hot |= mon.hot_lines(c, vars(m))
+        if getattr(env, 'instr', False):
+            for c in generated_codes(m):
+                env.sim.hot_strict |= mon.hot_lines(c, vars(m), strict=True)
+            env.sim.enable_instr()
     return {'path': list(path), 'out': out, 'fired': fr.fired, 'nested': fr.nested,
             'steps': (task.local - start) if task is not None else 0}
 
